@@ -147,8 +147,73 @@ def collapse_section(ctx):
             ctx.corr_mismatch(case, "Gallina collapse (Interp/Collapse.v) differs from util.collapse_varscalar")
 
 
+def collinear_section(ctx):
+    """point-compatible masters in which a point is COLLINEAR with its neighbours in one master only (in the middle of an exactly
+    vertical / horizontal edge, or coincident with its neighbour) and in general position in the others: an encoder that
+    simplifies each master on its own would drop it there.  glyf and CFF2, default options; the variable font instantiated at
+    every master's location has that master's bounds and area for every glyph"""
+    import ufo2ft
+    from fontTools.varLib import instancer
+    from fontTools.ttLib import TTFont
+    from fontTools.pens.areaPen import AreaPen
+    from fontTools.pens.boundsPen import BoundsPen
+    rng = ctx.subrng("collinear")
+    for i in range(ctx.budget(8, 24)):
+        lib = ["ufoLib2", "defcon"][i % 2]
+        fn = ["compileVariableCFF2", "compileVariableTTF"][(i // 2) % 2 if i >= 4 else 0]
+        which = [1, 2, 0][(i // 2) % 3] if i < 6 else i % 3          # the master in which the point is collinear
+        kind = ["vertical", "horizontal", "coincident"][(i // 4) % 3]
+
+        def master(k):
+            d = 20 * k
+            coll = k == which
+            if kind == "vertical":
+                mid = (Fr(200 + d), Fr(60)) if coll else (Fr(190 + d), Fr(60))
+                pts = [(Fr(0), Fr(0)), (Fr(200 + d), Fr(0)), mid, (Fr(200 + d), Fr(120)), (Fr(0), Fr(120))]
+            elif kind == "horizontal":
+                mid = (Fr(100), Fr(120 + d)) if coll else (Fr(100), Fr(131 + d))
+                pts = [(Fr(0), Fr(0)), (Fr(200), Fr(0)), (Fr(200), Fr(120 + d)), mid, (Fr(0), Fr(120 + d))]
+            else:
+                mid = (Fr(200 + d), Fr(120)) if coll else (Fr(215 + d), Fr(100))
+                pts = [(Fr(0), Fr(0)), (Fr(200 + d), Fr(0)), mid, (Fr(200 + d), Fr(120)), (Fr(0), Fr(120))]
+            gl = [{"name": "A", "unicodes": [0x41], "width": Fr(300 + d), "components": [], "anchors": [], "contours": [[(x, y, "line") for x, y in pts]]},
+                  {"name": "B", "unicodes": [0x42], "width": Fr(300), "components": [], "anchors": [],
+                   "contours": [[(Fr(10), Fr(0), "line"), (Fr(150 + d), Fr(0), "line"), (Fr(80), Fr(200), "line")]]}]
+            return {"glyphs": gl, "glyphOrder": ["A", "B"], "kerning": {}, "groups": {}, "lib": {},
+                    "info": {"familyName": "Fam", "styleName": "M%d" % k, "unitsPerEm": 1000, "ascender": 800, "descender": -200}}
+        masters = [master(k) for k in range(3)]
+        case = {"function": fn, "lib": lib, "collinear_in_master": which, "kind": kind, "masters": [jsonable(m) for m in masters]}
+        ctx.count(); ctx.klass("collinear point in master %d only (%s)/%s" % (which, kind, fn)); ctx.nontriv(("col", i, ctx.scale))
+        try:
+            ds, fonts = dsgen.make_designspace(rng, masters, lib, instances=False)
+            vf = getattr(ufo2ft, fn)(ds, useProductionNames=False)
+            b = io.BytesIO(); vf.save(b)
+        except Exception as e:
+            ctx.spec_failure(case, "%s raised %s: %s\n%s" % (fn, type(e).__name__, e, traceback.format_exc()[-1000:]))
+            continue
+        for k, wght in enumerate([100, 500, 900]):
+            inst = instancer.instantiateVariableFont(TTFont(io.BytesIO(b.getvalue())), {"wght": wght})
+            b2 = io.BytesIO(); inst.save(b2); inst = TTFont(io.BytesIO(b2.getvalue()))
+            gs = inst.getGlyphSet()
+            bad = None
+            for g in masters[k]["glyphs"]:
+                pts = [(float(x), float(y)) for x, y, _ in g["contours"][0]]
+                area = abs(sum(pts[j][0] * pts[(j + 1) % len(pts)][1] - pts[(j + 1) % len(pts)][0] * pts[j][1] for j in range(len(pts)))) / 2
+                box = (min(p[0] for p in pts), min(p[1] for p in pts), max(p[0] for p in pts), max(p[1] for p in pts))
+                ap, bp = AreaPen(gs), BoundsPen(gs)
+                gs[g["name"]].draw(ap); gs[g["name"]].draw(bp)
+                if bp.bounds is None or any(abs(a_ - b_) > 1.01 for a_, b_ in zip(bp.bounds, box)) or abs(abs(ap.value) - area) > 0.02 * area + 50:
+                    bad = (g["name"], bp.bounds, abs(ap.value), box, area)
+                    break
+            if bad:
+                ctx.spec_failure(dict(case, master=k, glyph=bad[0]),
+                                 "at master %d's location glyph %r has bounds %r and area %.0f; the master's outline has bounds %r and area %.0f" % ((k,) + bad))
+                break
+
+
 def explore(ctx):
     collapse_section(ctx)
+    collinear_section(ctx)
     from harness.props.c19 import varmodel_section
     varmodel_section(ctx, "c10")
     sparse_flatten_section(ctx)
